@@ -242,11 +242,9 @@ class Policy:
         return self.inline(path)
 
 
-PANIC_FNS = ('core::panicking::panic', 'std::rt::begin_panic', 'core::panicking::panic_fmt',
-             'std::rt::panic_fmt', 'core::panicking::unreachable_display', 'core::panicking::panic_display',
-             'core::panicking::panic_explicit', 'core::panicking::assert_failed', 'std::process::abort',
-             'core::panicking::panic_nounwind', 'core::option::unwrap_failed', 'core::result::unwrap_failed',
-             'core::panicking::unreachable', 'core::option::expect_failed', 'std::rt::panic_display')
+PANIC_FNS = ('std::panicking::', 'std::rt::begin_panic', 'std::rt::panic_fmt', 'std::process::abort',
+             'std::option::unwrap_failed', 'std::result::unwrap_failed', 'std::option::expect_failed',
+             'std::rt::panic_display', 'std::intrinsics::unreachable', 'std::intrinsics::abort')
 
 
 class Evaluator:
@@ -329,7 +327,7 @@ class State:
         """v is opaque, of enum type ty: case split on its variant."""
         head = self.adt_of_ty(ty)
         if head in (OPTION, 'core::option::Option'):
-            opts = [NONE, some(('field', v, '0'))]
+            opts = [NONE, some(('ok', v))]
             raise NeedSplit(v, opts, why)
         if head in (RESULT, 'core::result::Result'):
             opts = [ok(('ok', v)), err(('field', v, 'err'))]
@@ -417,6 +415,10 @@ class State:
         npath = norm_path(callee) if callee else None
         if npath is None:
             return ('unknown', 'indirect call')
+        if npath.startswith('core::'):
+            npath = 'std::' + npath[6:]
+        elif npath.startswith('alloc::'):
+            npath = 'std::' + npath[7:]
         if any(npath.startswith(p) for p in PANIC_FNS):
             raise PanicEx(node.get('mac', 'panic') if node else 'panic', node.get('l') if node else None)
         if npath in self.policy.stubs:
@@ -516,7 +518,8 @@ class State:
                  'std::slice::<impl [T]>::iter_mut', 'std::iter::Iterator::cloned', 'std::iter::Iterator::copied',
                  'std::iter::Iterator::by_ref', 'std::mem::take', 'std::convert::identity',
                  'std::string::ToString::to_string', 'std::str::<impl str>::to_string', 'std::iter::Iterator::peekable',
-                 'std::boxed::Box::<[T]>::into_vec', 'std::iter::Iterator::fuse'):
+                 'std::boxed::Box::<[T]>::into_vec', 'std::iter::Iterator::fuse',
+                 'std::boxed::box_assume_init_into_vec_unsafe', 'std::hint::must_use'):
             if p == 'std::convert::From::from' or p == 'std::convert::Into::into':
                 # conversions between different types stay visible
                 ty = node.get('ty') if node else None
@@ -525,6 +528,12 @@ class State:
                     return v
                 return v
             return a[0]
+        if p in ('anyhow::Context::context', 'anyhow::Context::with_context'):
+            return a[0]
+        if p == 'std::intrinsics::write_box_via_move':
+            return a[1]
+        if p == 'std::boxed::Box::new_uninit':
+            return ('call', p, ())
         if p in ('std::default::Default::default',):
             return ('call', p + '@' + (node.get('ty', '') if node else ''), ())
         if p in ('std::vec::Vec::new', 'std::vec::Vec::with_capacity'):
@@ -537,16 +546,17 @@ class State:
             return ('call', p, (recv,))
         if p == 'std::vec::Vec::push':
             return None  # handled in method-call path (needs place)
-        if p in ('std::slice::<impl [T]>::first', 'std::slice::<impl [T]>::last'):
+        if p in ('std::slice::<impl [T]>::first', 'std::slice::<impl [T]>::last', 'std::slice::<impl [T]>::last_mut'):
             if recv[0] == 'list':
                 if not recv[1]:
                     return NONE
                 return some(recv[1][0] if last == 'first' else recv[1][-1])
+            if recv[0] == 'seq':
+                return ('call', p, (recv,))
             return ('call', p, (recv,))
         if p.startswith('std::iter::Iterator::') or p.startswith('std::iter::DoubleEndedIterator::'):
             return self.iter_builtin(last, p, a, node)
-        if p in ('core::f32::<impl f32>::from_bits', 'core::f64::<impl f64>::from_bits',
-                 'std::f32::<impl f32>::from_bits', 'std::f64::<impl f64>::from_bits'):
+        if p in ('std::f32::<impl f32>::from_bits', 'std::f64::<impl f64>::from_bits'):
             return ('call', 'from_bits', tuple(a))
         if p == 'std::ops::Fn::call' or p == 'std::ops::FnMut::call_mut' or p == 'std::ops::FnOnce::call_once':
             f = self.refine(a[0])
@@ -570,15 +580,20 @@ class State:
             return self.do_call(f[1], args, node)
         if f[0] == 'fnitem':
             return self.do_call(f[1], args, node)
+        if f[0] == 'ctorfn':
+            return ctor(f[1], f[2], [(str(i), a) for i, a in enumerate(args)])
         return ('call', 'apply', (f,) + tuple(args))
 
     def iter_builtin(self, last, p, a, node):
-        if last in ('rev', 'skip_while', 'take_while', 'peekable', 'by_ref', 'chain', 'skip', 'take', 'step_by'):
-            if last in ('rev',):
-                s = self.seq_of(a[0])
-                if s[0] == 'list':
-                    return ('list', tuple(reversed(s[1])))
-                return ('seq', ('call', 'rev', (s[1],)), s[2]) if False else ('call', p, tuple(a))
+        if last == 'rev':
+            s = self.seq_of(a[0])
+            if s[0] == 'list':
+                return ('list', tuple(reversed(s[1])))
+            rsrc = ('call', 'rev', (s[1],))
+            if s[2] == ('elem', s[1]):
+                return ('seq', rsrc, ('elem', rsrc))
+            return ('call', p, tuple(a))
+        if last in ('skip_while', 'take_while', 'peekable', 'by_ref', 'chain', 'skip', 'take', 'step_by'):
             return ('call', p, tuple(a))
         s = self.seq_of(a[0])
         if last in ('map', 'filter_map', 'filter', 'flat_map', 'inspect'):
@@ -646,7 +661,7 @@ class State:
         if last in ('count', 'len'):
             if s[0] == 'list':
                 return lit(len(s[1]), 'usize')
-        if last in ('all', 'any', 'position', 'find', 'find_map'):
+        if last in ('all', 'any', 'position', 'find', 'find_map', 'rposition', 'max_by_key', 'min_by_key'):
             if s[0] == 'list' and last in ('all', 'any'):
                 res = (last == 'all')
                 for it in s[1]:
@@ -656,6 +671,13 @@ class State:
                     if last == 'any' and c:
                         return lit(True, 'bool')
                 return lit(res, 'bool')
+            if s[0] == 'seq' and len(a) > 1 and self.refine(a[1])[0] == 'closure':
+                # keep the predicate visible as a term over the generic element
+                try:
+                    pred = self.apply(a[1], [s[2]], node)
+                except NeedSplit:
+                    raise
+                return ('call', 'iter::' + last, (s, pred))
             return ('call', p, tuple(a))
         if last == 'next':
             if s[0] == 'list':
@@ -715,7 +737,9 @@ class State:
             raise NeedSplit(key, [True, False], 'literal pattern')
         if k == 'Slice':
             if v[0] != 'list':
-                raise EvalError('slice pattern on non-list ' + show(v))
+                # opaque slice: case split on its length class 0 / 1 / 2 (2 stands for "two or more")
+                i0, i1 = ('call', 'index', (v, lit(0, 'usize'))), ('call', 'index', (v, lit(1, 'usize')))
+                raise NeedSplit(v, [('list', ()), ('list', (i0,)), ('list', (i0, i1))], 'slice pattern')
             items = v[1]
             before, after = pat['before'], pat['after']
             if 'mid' in pat:
@@ -999,11 +1023,13 @@ class State:
                 return r
         if base[0] == 'tup' and name.isdigit():
             return base[1][int(name)]
-        return ('field', base, name)
+        return self.refine(('field', base, name))
 
     def e_Index(self, e, env):
         a = self.refine(self.expr(e['a'], env))
         b = self.refine(self.expr(e['b'], env))
+        if b[0] == 'ctor' and b[2] == 'RangeFull':
+            return a
         if a[0] == 'list' and b[0] == 'lit':
             if b[1] >= len(a[1]):
                 raise PanicEx('index out of bounds', e.get('l'))
